@@ -65,7 +65,7 @@ DOCS = [
     '<svg xmlns="http://www.w3.org/2000/svg" xmlns:xlink="http://www.w3.org/1999/xlink" viewBox="0 0 100 100" width="100" height="100">'
     '<?pi x?><title>t</title><g style="fill:green" opacity="0.5"><rect x="5.55" y="5.55" width="30.44" height="30" rx="3"/>'
     '<path d="m10.123,10 l20,0 l0,20 z m5,5 h5 v5 z M50,50 Q60,40 70,50 T90,50" fill-rule="evenodd" fill-opacity="0.5"/></g>'
-    '<circle cx="150" cy="50" r="20" fill="red"/><symbol><rect width="1" height="1"/></symbol></svg>',
+    '<circle cx="150" cy="50" r="20" fill="red"/><rect x="40" y="60" width="40" height="20" ry="16" fill="navy"/><symbol><rect width="1" height="1"/></symbol></svg>',
     # use + nested svg + stroke + clip
     '<svg xmlns="http://www.w3.org/2000/svg" xmlns:xlink="http://www.w3.org/1999/xlink" viewBox="0 0 100 100">'
     '<defs><clipPath id="c"><circle cx="30" cy="30" r="25"/></clipPath><rect id="r" x="1.26" y="2" width="20" height="20" fill="blue"/></defs>'
@@ -79,7 +79,7 @@ DOCS = [
     '<ellipse cx="30.333" cy="60" rx="20" ry="10" style="fill:none"/></g><polygon points="60,60 90,60 75,90.55" style="fill-opacity:0.25"/></svg>',
     # arcs, shorthand, translucent nested groups
     '<svg xmlns="http://www.w3.org/2000/svg" viewBox="0 0 100 100"><g opacity="0.5" fill="navy"><g opacity="0.5"><path d="M10,10 A20 10 30 1 0 50,40 S70,60 80,30 z"/>'
-    '<rect x="20.05" y="20.15" width="30" height="30" fill="navy"/></g><line x1="0" y1="0" x2="50" y2="50" stroke="red" stroke-width="2.5"/></g>'
+    '<rect x="20.05" y="20.15" width="30" height="30" fill="navy"/><rect x="60" y="70" width="30" height="12" rx="999"/></g><line x1="0" y1="0" x2="50" y2="50" stroke="red" stroke-width="2.5"/></g>'
     '<polyline points="5,95 25,75 45,95" style="stroke:green;fill:none;stroke-width:3"/></svg>',
     # evenodd star, partly outside the viewBox, desc/metadata
     '<svg xmlns="http://www.w3.org/2000/svg" viewBox="10 10 60 60"><desc>d</desc><metadata>m</metadata>'
